@@ -246,6 +246,9 @@ func (r *Replica) feedIndex() {
 		}
 		b := txindex.NewBatch(int64(len(blk.Txs)))
 		for i, tx := range blk.Txs {
+			if i >= len(resp.DeliverTxs) || resp.DeliverTxs[i] == nil {
+				continue // the application died mid-block (zero responses); C18's business
+			}
 			_ = b.Add(&tmtypes.TxResult{Height: r.Indexed, Index: uint32(i), Tx: tx, Result: *resp.DeliverTxs[i]})
 		}
 		if err := r.Indexer.AddBatch(b); err != nil {
@@ -399,6 +402,9 @@ func (r *Replica) ApplyBlock(blk *tmtypes.Block, id tmtypes.BlockID, seen *tmtyp
 	}
 	if err != nil {
 		return err
+	}
+	if r.Dead != "" {
+		return fmt.Errorf("application died: %s", r.Dead)
 	}
 	r.feedIndex()
 	return nil
